@@ -189,6 +189,24 @@ def po_proportional(S):
     S.check("amount1(k*L)==k*amount1(L)", S.eq(b1, k * a1))
 
 
+@proof("C07", "get_amounts/linear-in-liquidity", strength="U", contracts=SQRT_CONTRACT, shapes=SHAPES)
+def po_linear(S):
+    """amounts(L) == L x amounts(1) and amounts(L1 + L2) == amounts(L1) + amounts(L2): the form in which callers (value conservation
+       when PART of a position is removed, C03) use proportionality"""
+    sp, tA, tB = _price_and_range(S)
+    d0, d1 = _decimals(S)
+    L = S.int("liquidity", 0, 10 ** 40)
+    L2 = S.int("liquidity_2", 0, 10 ** 40)
+    u0, u1 = lm.get_amounts(sp, tA, tB, 1, d0, d1)
+    a0, a1 = lm.get_amounts(sp, tA, tB, L, d0, d1)
+    b0, b1 = lm.get_amounts(sp, tA, tB, L2, d0, d1)
+    c0, c1 = lm.get_amounts(sp, tA, tB, L + L2, d0, d1)
+    S.check("amount0(L)==L*amount0(1)", S.eq(a0, L * u0))
+    S.check("amount1(L)==L*amount1(1)", S.eq(a1, L * u1))
+    S.check("amount0(L1+L2)==amount0(L1)+amount0(L2)", S.eq(c0, a0 + b0))
+    S.check("amount1(L1+L2)==amount1(L1)+amount1(L2)", S.eq(c1, a1 + b1))
+
+
 @native
 def _pool(d0, d1, is_token0_quote):
     t0 = TokenInfo("TKA", d0)
